@@ -20,14 +20,14 @@ Qed.
 (** * Whenever the supply goes down, it comes out of the marker's own account only *)
 Lemma step_opt_burn s o s' :
   step_opt s o = Some s' -> supply s' < supply s ->
-  get (bal s') ESCROW = get (bal s) ESCROW - (supply s - supply s') /\
-  (forall a, a <> ESCROW -> get (bal s') a = get (bal s) a).
+  get (bal s') (esc s) = get (bal s) (esc s) - (supply s - supply s') /\
+  (forall a, a <> esc s -> get (bal s') a = get (bal s) a).
 Proof.
   intros H Hlt.
   destruct o; open_step H; subst; use_specs; simp_state; know_mk; simp_state; slim; try lia;
     (split; [lia | intros a Ha;
                    repeat match goal with
-                   | Ot : forall a, a <> ESCROW -> get (bal ?x) a = _ |- context [get (bal ?x) a] =>
+                   | Ot : forall a, a <> _ -> get (bal ?x) a = _ |- context [get (bal ?x) a] =>
                        rewrite (Ot a Ha)
                    end; simp_state; try reflexivity; try lia]).
 Qed.
@@ -37,7 +37,7 @@ Lemma step_opt_recall s o s' m m' :
   step_opt s o = Some s' -> BankInv s -> mk s = Some m -> mk s' = Some m' ->
   (st m <> Destroyed /\ st m' = Destroyed) \/
   ((exists c, o = OCancel c) /\ (st m = Finalized \/ st m = Active) /\ st m' = Cancelled) ->
-  supply s <= get (bal s) ESCROW /\ (st m' = Destroyed -> supply s' = 0).
+  supply s <= get (bal s) (esc s) /\ (st m' = Destroyed -> supply s' = 0).
 Proof.
   intros H HB Hmk Hmk' Hcase.
   destruct o;
@@ -51,8 +51,9 @@ Proof.
     | Hb : NonNeg (bal ?x) /\ _ -> NonNeg (bal ?y) /\ _ |- _ =>
         let Hn := fresh "Hn" in
         assert (NonNeg (bal y)) as Hn by (apply Hb; tauto);
-        pose proof (get_nonneg (bal y) ESCROW Hn); clear Hb
+        pose proof (get_nonneg (bal y) (esc y) Hn); clear Hb
     end;
+    repeat match goal with Hx : esc _ = esc _ |- _ => rewrite Hx in * end;
     slim; try (split; [lia | let Hx := fresh "Hx" in intros Hx; first [discriminate Hx | lia]]).
 Qed.
 
@@ -118,8 +119,8 @@ Qed.
 Lemma run_burn_only_escrow ops s o :
   let s1 := run s ops in let s' := fst (step s1 o) in
   supply s' < supply s1 ->
-  get (bal s') ESCROW = get (bal s1) ESCROW - (supply s1 - supply s') /\
-  (forall a, a <> ESCROW -> get (bal s') a = get (bal s1) a).
+  get (bal s') (esc s1) = get (bal s1) (esc s1) - (supply s1 - supply s') /\
+  (forall a, a <> esc s1 -> get (bal s') a = get (bal s1) a).
 Proof.
   intros s1 s'. subst s'.
   destruct (step_cases s1 o) as [(s2 & Ho & ->)|(_ & ->)]; cbn [fst]; [|lia].
@@ -163,13 +164,13 @@ Lemma run_recall ops s o m m' :
   mk s1 = Some m -> mk s' = Some m' ->
   (st m <> Destroyed /\ st m' = Destroyed) \/
   ((exists c, o = OCancel c) /\ (st m = Finalized \/ st m = Active) /\ st m' = Cancelled) ->
-  (forall a, a <> ESCROW -> get (bal s1) a = 0) /\ (st m' = Destroyed -> supply s' = 0).
+  (forall a, a <> esc s1 -> get (bal s1) a = 0) /\ (st m' = Destroyed -> supply s' = 0).
 Proof.
   intros Hs s1 s' Hm Hm' Hc. subst s'.
   destruct (run_inv ops s Hs) as [HB _]. fold s1 in HB.
   destruct (step_cases s1 o) as [(s2 & Ho & He)|(_ & He)]; rewrite He in *; cbn [fst] in *.
   - destruct (step_opt_recall s1 o s2 m m' Ho HB Hm Hm' Hc) as [Hle Hz]. split; [|exact Hz].
-    intros a Ha. destruct HB as [Hn Heq]. apply recalled_all; [exact Hn| |exact Ha]. lia.
+    intros a Ha. destruct HB as [Hn Heq]. apply (recalled_all _ (esc s1)); [exact Hn| |exact Ha]. lia.
   - exfalso. rewrite Hm in Hm'. injection Hm' as <-.
     destruct Hc as [[Hnd Hd]|[_ [[Hf|Ha] Hc]]]; congruence.
 Qed.
